@@ -86,9 +86,9 @@ def _pair_rows(g, method, Zi, Zj, tier):
     else:
         ds = list(FIXED_D) + [float(x) for x in np.exp(g.uniform(math.log(0.6), math.log(15.0), 10))]
         for d in ds:
-            for _ in range(5):
+            for _ in range(7):
                 rows.append([Zi, Zj, round(d, 6), "haar", int(g.integers(0, 2**31))])
-            for ax in g.choice(6, 2, replace=False):
+            for ax in g.choice(6, 3, replace=False):
                 rows.append([Zi, Zj, round(d, 6), "axis", axes[int(ax)]])
         for d in thr:
             rows.append([Zi, Zj, d, "haar", int(g.integers(0, 2**31))])
@@ -122,7 +122,8 @@ def gen_cases(tier, seed):
                 if m != 1:
                     cases.append({"kind": "mol", "method": method, "mol": name, "uhf": 1, "seed": int(g.integers(0, 2**31))})
                 else:
-                    cases.append({"kind": "mol", "method": method, "mol": name, "uhf": 0, "seed": int(g.integers(0, 2**31))})
+                    for _ in range(2):
+                        cases.append({"kind": "mol", "method": method, "mol": name, "uhf": 0, "seed": int(g.integers(0, 2**31))})
                     if name in gen.SMALL or name in ("NH4+", "OH-", "CH3Cl", "SO2"):
                         cases.append({"kind": "mol", "method": method, "mol": name, "uhf": 1, "seed": int(g.integers(0, 2**31))})
     # --- Fock level -----------------------------------------------------------------------------------
@@ -627,7 +628,6 @@ def _run_mol(case):
         comm = max(np.abs(Fa @ Pa - Pa @ Fa).max(), np.abs(Fb @ Pb - Pb @ Fb).max())
         fmax = max(np.abs(Fa).max(), np.abs(Fb).max())
         pmax = max(np.abs(Pa).max(), np.abs(Pb).max())
-        ntr = abs(np.trace(Pt) - (mdl.n_valence - q))
     else:
         Pt = mdl.extract(dm)
         e_ref = mdl.eelec_rhf(Pt)
@@ -635,11 +635,13 @@ def _run_mol(case):
         comm = np.abs(Fr @ Pt - Pt @ Fr).max()
         fmax = np.abs(Fr).max()
         pmax = np.abs(Pt).max()
-        ntr = abs(np.trace(Pt) - (mdl.n_valence - q))
-    # everything outside the real AO slots of the returned density must be empty (else the R1 functional sees less)
+    # everything outside the real AO slots of the returned density must be empty, else the R1 functional (which only has
+    # the real orbitals) is not comparable -- that would be a padding defect (C05), not a statement about the NDDO model
     leak = float(np.abs(dm).sum() - (np.abs(Pa).sum() + np.abs(Pb).sum() if uhf else np.abs(Pt).sum()))
-    acc.cmp("density_outside_real_orbitals", abs(leak), 1e-9, "density-in-padding-or-hydrogen-p-slots", mech("leak"), det)
-    acc.cmp("electron_count", ntr, 1e-7, "trace-of-returned-density", mech("trace"), det)
+    if abs(leak) > 1e-9:
+        mon, cells = _delta(snap)
+        return {"ineligible": "returned density has weight outside the real AO slots (padding / hydrogen p slots)",
+                "monitors": mon, "cells": cells}
     tolE = TOL + float(np.sum(np.abs(Pt) * allow))
     etot_ref = mdl.etot(e_ref)
     acc.cmp("Eelec", abs(float(out["Eelec"][0]) - e_ref), tolE, "Eelec-vs-R1-functional", mech("eelec"), det)
